@@ -178,7 +178,9 @@ func (b *StoredBatch) Encode() []byte {
 		for i, r := range b.Recs {
 			off := b.Base + r.Delta
 			if b.Magic == 1 {
-				off = int64(i) // relative offsets inside a v1 wrapper (KIP-31)
+				// relative offsets inside a v1 wrapper (KIP-31); gaps left by compaction are preserved
+				off = r.Delta - b.Recs[0].Delta
+				_ = i
 			}
 			inner.Write(legacyEntry(off, legacyMessage(b.Magic, 0, r.Timestamp, r.Key, r.Value)))
 		}
